@@ -935,10 +935,14 @@ class EqCongurentPredMacro(Macro):
             args_pair = [(i, j) for i, j in zip(pred_fun.arg.strip_comb()[1], concl.strip_comb()[1])]
         else:
             args_pair = [(i, j) for i, j in zip(pred_fun.strip_comb()[1], concl.arg.strip_comb()[1])]
+        if not all(i.is_not() and i.arg.is_equals() for i in preds):
+            raise VeriTException("eq_congruent_pred", "all but the last two literals must be negated equalities")
         if len(preds) > 1:
             preds_pair = [(i.arg.lhs, i.arg.rhs) for i in preds]
         else:
-            preds_pair = [(preds[0].arg.lhs, preds[0].arg.rhs), (preds[0].arg.lhs, preds[0].arg.rhs)]
+            preds_pair = [(preds[0].arg.lhs, preds[0].arg.rhs)] * max(1, len(args_pair))
+        if len(preds_pair) != len(args_pair):
+            raise VeriTException("eq_congruent_pred", "wrong number of equalities")
 
         for arg, pred in zip(args_pair, preds_pair):
             if arg == pred:
